@@ -644,7 +644,13 @@ func (w *world) doOp(ctx context.Context, ts *taskState, op sim.Op, i int) {
 			}
 			recs = append(recs, rec)
 		}
-		err := ts.cl.PutMany(ctx, recs)
+		var err error
+		if op.N == 7 {
+			// set-up of a big population: one plain call, no scheduling points inside
+			zsimrt.Unchecked(func() { err = ts.cl.PutMany(ctx, recs) })
+		} else {
+			err = ts.cl.PutMany(ctx, recs)
+		}
 		o = outcome{Err: classify(err)}
 		if seq {
 			msg = w.m.applyPutMany(keys, vals, exps, &o)
